@@ -71,11 +71,13 @@ def bkStep (s : BkSt) (line : String) : BkSt × String :=
   | ["dump"] => (s, match s.cur with | some b => showBk b | none => "none")
   | ["agree"] => (s, match s.cur with | some b => (agree b s.spec).trimAscii.toString ++ s!" w={decide (WF Bkt.fuel s.orig b)}" | none => "none")
   | ["fullok"] => (s, match s.cur with | some b => s!"o={origShapeOk Bkt.fuel (full s.orig Bkt.fuel [] b)}" | none => "none")
-  | ["commit", order] =>
+  | [cmd, order] =>
+    if cmd != "commit" && cmd != "commitroot" then (s, "bad-op") else
     match s.cur with
     | none => (s, "none")
     | some b =>
-      match commitBk s.ps s.sth s.rth Bkt.fuel (if order == "-" then [] else (order.splitOn ",").map String.toNat!) b with
+      let ord := if order == "-" then [] else (order.splitOn ",").map String.toNat!
+      match (if cmd == "commit" then commitBk s.ps s.sth s.rth Bkt.fuel ord b else commitRoot s.ps s.sth s.rth Bkt.fuel ord b) with
       | some b' => ({ s with cur := some b' }, "ok" ++ agree b' s.spec)
       | none => ({ s with cur := none }, "none")
   | ["full"] => (s, match s.cur with | some b => showBk (full s.orig Bkt.fuel [] b) | none => "none")
